@@ -278,16 +278,17 @@ class Walker(object):
         # Weird check required for backwards compatibility,
         # when _check_file did not exist.
         if Walker._check_file == type(self)._check_file:
+            full_path = combine(dir_path, info.name)
             if self.exclude is not None and fs.match(self.exclude, info.name):
                 return False
             if self.exclude_glob is not None and fs.match_glob(
-                self.exclude_glob, dir_path + "/" + info.name
+                self.exclude_glob, full_path
             ):
                 return False
             if self.filter is not None and not fs.match(self.filter, info.name):
                 return False
             if self.filter_glob is not None and not fs.match_glob(
-                self.filter_glob, dir_path + "/" + info.name, accept_prefix=True
+                self.filter_glob, full_path
             ):
                 return False
         return self.check_file(fs, info)
